@@ -152,7 +152,7 @@ theorem NArr.init_rows (c c' : PCol α) (h : NArr.init c false = .ok c') : c'.ro
   split
   · rename_i he
     have : c.chunks = [] := by simpa using he
-    simp [PCol.rows, this, PStruct.rows, PStruct.len]
+    simp [PCol.rows, this, PStruct.rows, PStruct.len, emptyChunk]
   · rfl
 
 theorem PCol.rows_length (c : PCol α) : c.rows.length = c.len := by
